@@ -141,7 +141,7 @@ func (w *World) decide(class string, proc int, callIdx int, op *OpRec) string {
 		var cands []string
 		switch {
 		case isMS:
-			if fp.Kinds["ms.err"] {
+			if fp.Kinds["ms.err"] && !(class == "ms.store" && fp.Kinds["ms.readonly-faults"]) {
 				cands = append(cands, FErrBefore)
 			}
 			if fp.Kinds["ms.errafter"] {
